@@ -64,6 +64,12 @@ pub fn catch<T>(f: impl FnOnce() -> T) -> Result<T, Panicked> {
             let (msg, loc) = LAST_PANIC
                 .with(|p| p.borrow_mut().take())
                 .unwrap_or_else(|| ("<unknown>".into(), String::new()));
+            // A panic raised by the HARNESS itself (its source paths are relative, the library under test
+            // and libcore have absolute paths) is a tool error, never an observation of the library.
+            if !loc.starts_with('/') {
+                eprintln!("egv harness bug: panic at {}: {}", loc, msg);
+                std::process::exit(101);
+            }
             Err(Panicked { msg, loc })
         }
     }
